@@ -211,12 +211,12 @@ func (c countingReader) Read(p []byte) (int, error) {
 
 // recConn is one client connection of this phase with its reader goroutine.
 type recConn struct {
-	env     *recycleEnv
-	tr      string
-	conn    net.Conn     // the TCP connection or the TLS session on it
-	tc      *net.TCPConn // always the TCP connection
-	ep      *endpoint
-	bytes   atomic.Int64 // bytes read from the connection (after TLS)
+	env   *recycleEnv
+	tr    string
+	conn  net.Conn     // the TCP connection or the TLS session on it
+	tc    *net.TCPConn // always the TCP connection
+	ep    *endpoint
+	bytes atomic.Int64 // bytes read from the connection (after TLS)
 	// jmu is held by the reader across judging a frame and recording it below,
 	// so a client woken by the oracle's notification reads a settled record
 	jmu     sync.Mutex
